@@ -174,7 +174,18 @@ def graph_compute(expr):
 def flags(spec, resolved):
     ops = {s["op"] for i, s in enumerate(spec["steps"]) if not resolved.get(i, {}).get("skip")}
     red = any(s.get("red") or s.get("p1", {}).get("red") or s.get("p2", {}).get("red") or s.get("kind") == "red" for s in spec["steps"])
-    return dict(concat="concat" in ops, merge="merge" in ops, reset_index=bool(ops & {"reset_index", "groupby"}), groupby="groupby" in ops, loc="loc" in ops, repartition="repartition" in ops, red=bool(red or spec.get("final")))
+    # signature flag (no comparison depends on it): a projection that drops the former index column of a frame that
+    # (by dataflow) comes out of a reset_index step - the shape of finding resetindex-projection-filter-*
+    derived, index_projected_away = [False], False
+    for i, s in enumerate(spec["steps"]):
+        r = resolved.get(i, {})
+        if r.get("skip"):
+            continue
+        d = derived[s["src"] % len(derived)] or s["op"] == "reset_index"
+        if s["op"] == "project" and d and "keep" in r and "index" not in r["keep"]:
+            index_projected_away = True
+        derived.append(d)
+    return dict(concat="concat" in ops, merge="merge" in ops, reset_index=bool(ops & {"reset_index", "groupby"}), groupby="groupby" in ops, loc="loc" in ops, repartition="repartition" in ops, red=bool(red or spec.get("final")), index_projected_away=index_projected_away)
 
 
 def check(spec):
